@@ -148,3 +148,6 @@ NOT_APPLICABLE['C13'] = ("begin/rollback are two clone()s of catalog and tables;
                          "caches) - an absent assignment cannot be refuted by a contract on these functions. Partially reached under other properties: the CONTENTS of the "
                          "user-defined indexes are rebuilt after ROLLBACK (fix 3518c656, unit K-undo rollback_transaction, counted under C02/C14); CREATE INDEX / DROP INDEX "
                          "inside a rolled-back transaction still survive it (observed, DESIGN 9b)")
+
+_extend('C10', 'ADDED (units K-rowval, I-probe): RowValidator::validate_column_constraints extracts PRIMARY KEY / UNIQUE / FOREIGN KEY keys in the order of the constraint\'s column list '
+        '(the order the indexes use) and enforces NOT NULL; IndexData::contains_key - the CREATE UNIQUE INDEX membership test - normalizes its probe like the stored keys.')
